@@ -913,6 +913,7 @@ namespace bloch::compiler {
                                              "' does not fit '" + elemPrim->name + "[]'");
                     }
                 }
+            }
         }
 
         if (auto call = dynamic_cast<CallExpression*>(initializer)) {
@@ -2801,10 +2802,17 @@ namespace bloch::compiler {
             return;
         }
 
+        if (valType.value == ValueType::Void) {
+            throw BlochError(ErrorCategory::Semantic, node.line, node.column,
+                             "the result of a 'void' call cannot be assigned to an array element");
+        }
+        // class and array values carry no primitive tag: they fit only by the class relation
+        const bool primitiveOnBothSides = elemType.className.empty() && valType.className.empty();
         auto typesCompatible =
             isAssignableType(elemType, valType) ||
-            matchesPrimitive(elemType.value, valType.value) ||
-            (elemType.value == ValueType::Int && valType.value == ValueType::Bit);
+            (primitiveOnBothSides && matchesPrimitive(elemType.value, valType.value)) ||
+            (elemType.value == ValueType::Int && valType.value == ValueType::Bit) ||
+            valType.isTypeParam || isUnknownType(valType);
 
         if (!typesCompatible) {
             throw BlochError(ErrorCategory::Semantic, node.line, node.column,
